@@ -74,9 +74,16 @@ class TicketType(MichelsonType, prim='ticket', args_len=1):
 
     @classmethod
     def from_python_object(cls, py_obj) -> 'MichelsonType':
-        type_impl = PairType.create_type(args=[AddressType, cls.args[0], NatType])
-        comb = type_impl.from_python_object(py_obj)
-        return cls.from_comb(comb)
+        # the counterpart of `to_python_object`: (ticketer, item, amount); reading it as a value of the comb
+        # `pair address (pair <item type> nat)` would spread an item that is itself a pair over the pair's fields
+        assert isinstance(py_obj, (tuple, list)), f'expected tuple or list, got {type(py_obj).__name__}'
+        assert len(py_obj) == 3, f'expected (ticketer, item, amount), got {len(py_obj)} items'
+        ticketer, item, amount = py_obj
+        return cls(
+            ticketer=str(AddressType.from_python_object(ticketer)),
+            item=cls.args[0].from_python_object(item),
+            amount=int(NatType.from_python_object(amount)),
+        )
 
     def to_comb(self) -> PairType:
         return PairType.from_comb(items=[AddressType(self.ticketer), self.item, NatType(self.amount)])
